@@ -37,7 +37,7 @@ FLOORS = {
               'kind:Choice': 50, 'kind:LA': 50, 'kind:NLA': 50, 'kind:Named': 50, 'kind:NamedList': 50,
               'kind:Over': 50, 'kind:Const': 50, 'kind:Void': 50, 'kind:EOF': 50, 'kind:Dot': 50,
               'kind:SkipTo': 50, 'kind:Empty': 50, 'kind:Call': 50, 'kind:Tok': 50, 'kind:Pat': 50,
-              'kind:Group': 50, 'kind:Seq': 50, 'textroute_cases': 100, 'sugar:include': 100, 'sugar:based_rule': 100},
+              'kind:Group': 50, 'kind:Seq': 50, 'textroute_cases': 100, 'sugar:include': 100, 'sugar:based_rule': 100, 'sugar:override_rule': 100, 'default_start_cases': 800},
     'thorough': {'accepted_unflagged': 400000, 'textroute_cases': 1000},
 }
 
@@ -143,6 +143,64 @@ def add_sugar(rng, g, F, acc):
     return L.Grammar(rules, dict(g.directives), tuple(g.keywords))
 
 
+def override_text(g, rname):
+    """grammar text in which rule `rname` is first defined with a placeholder body and later redefined with
+    @override: documented to be the same grammar as `g` (the redefinition REPLACES the rule, in place)"""
+    lines = []
+    tail = []
+    for r in g.rules:
+        one = L.grammar_text(L.Grammar([r])).strip()
+        if r.name == rname:
+            lines.append(f"{r.name} = 'zz' 'qq' ;")
+            tail.append('@override\n' + one)
+        else:
+            lines.append(one)
+    return '\n'.join(lines + tail) + '\n'
+
+
+def check_default_start(acc, rng, g, texts, origin):
+    """text route, no wrapper, NO explicit start: tatsu.compile(text).parse(input) starts at the first rule"""
+    import tatsu
+    from ..tsu import outcome
+    first = g.rules[0].name
+    over = None
+    if all(not r.base and not any(isinstance(x, L.Include) for x in L.walk(r.body)) for r in g.rules) and rng.random() < 0.6:
+        over = rng.choice(g.rules).name if rng.random() < 0.5 else first
+        text_g = override_text(g, over)
+        acc.count('sugar:override_rule')
+    else:
+        text_g = L.grammar_text(g)
+    try:
+        model = tatsu.compile(text_g, name='T')
+    except Exception as e:  # noqa: BLE001
+        acc.evaluations += 1
+        acc.violation(f'exc:compile:{type(e).__name__}/{kind_sig(g)}', f'tatsu.compile failed on generated grammar text: {type(e).__name__}: {e}',
+                      {'grammar': L.to_json(g), 'grammar_text': text_g, 'route': 'text-default-start'})
+        return
+    for text in texts:
+        a, r = D.ref_run(g, text, first, max_steps=30000)
+        if a[0] == 'budget':
+            continue
+        b = outcome(lambda t, **kw: model.parse(t, heart=D.StepHeart(D.step_budget(g, t)), **kw), text)
+        acc.evaluations += 1
+        acc.count('default_start_cases')
+        ok_a, ok_b = a[0] == 'ok', b[0] == 'ok'
+        bad = None
+        if b[0] == 'EXC':
+            bad = 'exc:' + b[1]
+        elif ok_a != ok_b:
+            bad = 'accept' if ok_a else 'reject'
+        elif ok_a and not r.nonw and 'open-list-rule-value' not in r.triggers and a[2] != b[1]:
+            bad = 'ast'
+        if bad:
+            sig = f'default-start/{bad}' + ('/override' if over else '')
+            acc.violation(sig, f'tatsu.compile(text).parse(input) without start= differs from the documented semantics ({bad}): '
+                               f'grammar {text_g.strip()!r} input {text!r} REF={a} TATSU={b}',
+                          {'grammar': L.to_json(g), 'grammar_text': text_g, 'text': text, 'start': first, 'override': over,
+                           'route': 'text-default-start', 'ref': a, 'tatsu': b, 'origin': origin})
+            return
+
+
 def run_random(desc, acc):
     for i in range(desc['n']):
         rng = random.Random(h64('C01', desc['seed'], desc['shard'], i))
@@ -172,6 +230,9 @@ def run_random(desc, acc):
                     runaway += 1
                     if runaway >= 2:
                         break
+        if route == 'text':
+            check_default_start(acc, rng, g, G.gen_inputs(rng, g, g.rules[0].name, 4),
+                                {'mode': 'random', 'shard': desc['shard'], 'i': i, 'route': 'text-default-start'})
         if i == 0:
             acc.sample({'grammar': L.grammar_text(g), 'start': starts[0], 'inputs': texts})
 
@@ -217,6 +278,15 @@ def run_exhaustive(desc, acc):
 
 def replay(w, acc):
     g = L.from_json(w['grammar'])
+    if w.get('route') == 'text-default-start':
+        import tatsu
+        from ..tsu import outcome
+        a, r = D.ref_run(g, w['text'], w['start'])
+        b = outcome(tatsu.compile(w['grammar_text'], name='T').parse, w['text'])
+        acc.evaluations += 1
+        if (a[0] == 'ok') != (b[0] == 'ok') or (a[0] == 'ok' and not r.nonw and a[2] != b[1]):
+            acc.violation('default-start/replay', f'REF={a} TATSU={b}', w)
+        return
     case = D.Case(g, w['start'], route=w.get('route', 'object'))
     check_case(acc, case, w['text'], {'mode': 'replay'})
 
